@@ -209,6 +209,16 @@ def lean_term_expr(name: str, c: dict) -> str | None:
         return f"{P}select_scatter.term {li(c['dim'])} {li(c['index'])}"
     if name == "slice_scatter":
         return f"{P}slice_scatter.term {r} {li(c['dim'])} {lopt(c['start'])} {lopt(c['end'])} {li(c['step'])}"
+    if name in ("layer_norm", "native_layer_norm"):
+        return f"{P}layer_norm.term {lb(name == 'native_layer_norm')} {len(c['ns'])} {lb(c['w'] is not None)} {lb(c['b'] is not None)}"
+    if name == "sort":
+        return f"{P}sort.term {r} {li(c['dim'])} {lb(c['desc'])}"
+    if name == "addmm":
+        return f"{P}addmm.term {li(c['alpha'])} {li(c['beta'])}"
+    if name == "baddbmm":
+        return f"{P}baddbmm.term {lopt(c['alpha'])} {lopt(c['beta'])}"
+    if name == "glu":
+        return f"{P}glu.term {li(c['dim'])}"
     if name.startswith("atleast_"):
         return f"{P}atleast.term {name[8]} {r}"
     if name == "topk":
@@ -236,14 +246,16 @@ def lstr(s: str) -> str:
     return '"' + s.replace("\\", "\\\\").replace('"', '\\"') + '"'
 
 
-def build_rows():
+def build_rows(table_b: bool = False):
+    """table_b=False: the table of rounds 1-4 (every family outside c08_cases.TABLE_B, plus the integer-arithmetic rows);
+    table_b=True: the round-5 families only (OV.Gen.C08TraceB*, importing OV.Model.C08Norm only)."""
     from harness import c08_cases, c08_lib as L
 
     FAM = c08_cases.FAMILIES
     core_mod = L._mods()["core"]
     rows = []
     skipped = 0
-    for name in sorted(FAM):
+    for name in sorted(n for n in FAM if (n in c08_cases.TABLE_B) == table_b):
         rng = random.Random(f"{GRID_SEED}:{name}")
         seen = set()
         tries = 0
@@ -262,6 +274,8 @@ def build_rows():
                 continue
             seen.add(expr)
             rows.append((name, expr, " || ".join(L.render_outputs(model, outs))))
+    if table_b:
+        return rows, skipped
     # integer-arithmetic terms (dtype classes)
     import numpy as np
     a = np.array([7, -7], dtype=np.int64)
@@ -312,7 +326,7 @@ def regenerate() -> dict:
             p.write_text(text)
         names.append(f"C08Trace{k}")
     for p in gen.glob("C08Trace*.lean"):
-        if p.stem not in names and p.stem != "C08Trace":
+        if p.stem not in names and p.stem != "C08Trace" and not p.stem.startswith("C08TraceB"):
             p.unlink()
     n = len(chunks)
     root = "\n".join([f"import OV.Gen.{nm}" for nm in names] + [
@@ -329,7 +343,47 @@ def regenerate() -> dict:
     if not p.exists() or p.read_text() != root:
         p.write_text(root)
     fns = sorted({nm for nm, _, _ in rows})
-    return {"rows": len(rows), "chunks": n, "functions": len(fns), "skipped_trace_errors": skipped}
+    info_b = regenerate_b()
+    return {"rows": len(rows), "chunks": n, "functions": len(fns), "skipped_trace_errors": skipped, "table_b": info_b}
+
+
+def regenerate_b() -> dict:
+    """Second table (round-5 families): OV/Gen/C08TraceB{k}.lean + C08TraceB.lean, same row format and closing tactic."""
+    rows, skipped = build_rows(table_b=True)
+    chunks = [rows[i:i + CHUNK] for i in range(0, len(rows), CHUNK)]
+    gen = core.LEAN / "OV" / "Gen"
+    names = []
+    for k, ch in enumerate(chunks):
+        body = ["import OV.Model.C08Norm",
+                "/-! GENERATED by harness/extract_torchlib.py from /repo's working tree — do not edit. -/",
+                "namespace OV.Gen.C08TraceB", "",
+                f"/-- (model term, term emitted by the real torch_lib function) — second table, chunk {k}. -/",
+                f"def table{k} : List (String × String) := ["]
+        body.append(",\n".join(f"  ({e},\n   {lstr(t)})" for _, e, t in ch))
+        body += ["]", "", f"theorem ok{k} : ∀ e ∈ table{k}, e.1 = e.2 := by decide +kernel", "", "end OV.Gen.C08TraceB", ""]
+        text = "\n".join(body)
+        p = gen / f"C08TraceB{k}.lean"
+        if not p.exists() or p.read_text() != text:
+            p.write_text(text)
+        names.append(f"C08TraceB{k}")
+    for p in gen.glob("C08TraceB*.lean"):
+        if p.stem not in names and p.stem != "C08TraceB":
+            p.unlink()
+    n = len(chunks)
+    root = "\n".join([f"import OV.Gen.{nm}" for nm in names] + [
+        "/-! GENERATED — the second trace table (round-5 families). -/", "namespace OV.Gen.C08TraceB",
+        "def traceTable : List (String × String) := " + " ++ (".join(f"table{k}" for k in range(n)) + ")" * (n - 1),
+        f"def nRows : Nat := {len(rows)}", "",
+        "theorem ok_all : ∀ e ∈ traceTable, e.1 = e.2 := by",
+        "  intro e he",
+        "  simp only [traceTable, List.mem_append] at he",
+        "  rcases he with " + " | ".join(["he"] * n) if n > 1 else "  skip",
+        "  all_goals first " + " ".join(f"| exact ok{k} e he" for k in range(n)),
+        "end OV.Gen.C08TraceB", ""])
+    p = gen / "C08TraceB.lean"
+    if not p.exists() or p.read_text() != root:
+        p.write_text(root)
+    return {"rows": len(rows), "chunks": n, "functions": len({nm for nm, _, _ in rows}), "skipped_trace_errors": skipped}
 
 
 if __name__ == "__main__":
